@@ -1208,6 +1208,15 @@ def _week_like(c, prop, name, anchor, lo, hi, gate=True):
     c.rec(prop, f"{name}: some path returns Ok", n > 0)
     for st, e in _err_exits(c):
         c.rec(prop, f"{name}: errors are range errors", e == 'DateOutOfRange', f"error {e}")
+        # a week boundary is at most 6 days away: truncation can only fail in the first week of the range, rounding
+        # only in the last one (the chosen boundary after the maximum date)
+        x, y = st.num.rng2(d)
+        if prop == 'C10':
+            c.rec(prop, f"{name}: fails only when the boundary would lie before 0001-01-01", y <= INV['date::Date'][0] + 6, f"fails for day numbers in [{x}, {y}]")
+        else:
+            # (rounding down moves back at most 3 days: below the minimum date only from the first three days of the range)
+            c.rec(prop, f"{name}: fails only when the chosen boundary lies outside the range (after the maximum date, or before 0001-01-01 when rounding down)",
+                  x >= INV['date::Date'][1] - 6 or y <= INV['date::Date'][0] + 2, f"fails for day numbers in [{x}, {y}]")
 
 
 def _jan1(st, parts):
@@ -1273,6 +1282,79 @@ def _ts_grid(c, prop, name, unit, lo, hi):
     c.rec(prop, f"{name}: some path returns Ok", n > 0)
     for st, e in _err_exits(c):
         c.rec(prop, f"{name}: errors are range errors", e == 'DateOutOfRange', f"error {e}")
+
+
+def _date_of_result_decomposition(c, st, r):
+    """the Julian-day form X whose (year, month[, day]) decomposition the result r = D*(jd(y', m') + k - E) was built from"""
+    ymd = _ymd_of_result_scaled(r)
+    if ymd is None:
+        return None
+    xs = set()
+    stack = list(ymd[:2])
+    seen = set()
+    while stack:
+        f = stack.pop()
+        for s_, _ in f.terms:
+            if s_ in seen:
+                continue
+            seen.add(s_)
+            info = SYMTAB.syms[s_]
+            if info.kind == 'opaque' and info.data and info.data[0] in ('year', 'month', 'day'):
+                xs.add(info.data[1])
+            elif info.kind == 'div':
+                stack.append(info.data[0])
+            elif info.kind == 'opaque' and info.data and info.data[0] == 'dom':
+                pass
+    if len(xs) != 1:
+        return None
+    k = xs.pop()
+    return Form(k[0], k[1])
+
+
+def _ymd_of_result_scaled(r: Form):
+    """r = D*(jd(y', m') + k - E) -> (y', m', k)"""
+    if r.c % D_US or any(k % D_US for _, k in r.terms):
+        return None
+    return _ymd_of_result(Form(r.c // D_US, tuple((s_, k // D_US) for s_, k in r.terms)))
+
+
+TS_DAY_UNITS = 'century|year|iso_year|quarter|month|week|iso_week|month_start_week|sunday_start_week'
+
+
+@contract(r'^<(timestamp::Timestamp|oracle::Date) as Trunc>::trunc_(' + TS_DAY_UNITS + r')$')
+def _(c):
+    """units of a day or longer: the time of day is cleared (which boundary: the Date contract of the unit + delegation)"""
+    name = 'Timestamp::' + c.key.rsplit('::', 1)[1]
+    n = 0
+    for st, r in _ok_exits(c):
+        n += 1
+        res = st.num.residue(r, D_US)
+        c.rec('C10', f"{name}: the time of day is cleared (result at midnight)", res == 0, f"{r!r}: residue {res} modulo one day")
+    c.rec('C10', f"{name}: some path returns Ok", n > 0)
+
+
+@contract(r'^<(timestamp::Timestamp|oracle::Date) as Round>::round_(century|year|quarter|month)$')
+def _(c):
+    """calendar units: the rule is applied to the calendar date of the value (no noon shift), the result is a midnight"""
+    u = c.argc(0)
+    name = 'Timestamp::' + c.key.rsplit('::', 1)[1]
+    n = 0
+    for st, r in _ok_exits(c):
+        n += 1
+        res = st.num.residue(r, D_US)
+        c.rec('C11', f"{name}: result at midnight", res == 0, f"{r!r}: residue {res} modulo one day")
+        x = _date_of_result_decomposition(c, st, r)
+        if x is None:
+            c.rec('C11', f"{name}: the rule is applied to the calendar date of the value", False, f"{r!r} is not built from one calendar decomposition")
+            continue
+        ok = True
+        why = ''
+        for (s2, q, _) in _floor_parts(c, st, u, D_US):
+            if not s2.num.eq0(x.addc(-E_J).sub(q)):
+                ok = False
+                why = f"the date that was rounded is day {x.addc(-E_J)!r}, the calendar date of the value is floor(u / D) = {q!r}"
+        c.rec('C11', f"{name}: the rule is applied to the calendar date of the value", ok, why)
+    c.rec('C11', f"{name}: some path returns Ok", n > 0)
 
 
 @contract(r'^<(timestamp::Timestamp|oracle::Date) as Trunc>::trunc_hour$')
